@@ -9,6 +9,9 @@ mod tracked;
 mod iter;
 mod tuples;
 mod own;
+mod q;
+mod alg;
+mod mat;
 
 fn main() {
     let args: Vec<String> = std::env::args().collect();
@@ -19,6 +22,7 @@ fn main() {
         ("replay", "iter") => iter::replay(rest),
         ("drive", "ops") => ops::drive(rest),
         ("drive", "own") => own::drive(rest),
+        ("drive", "products") => mat::drive_products(rest),
         (a, b) => { eprintln!("unknown command {} {}", a, b); std::process::exit(2); }
     }
 }
